@@ -49,6 +49,7 @@ fn needs_c(sc: &Scenario) -> bool {
                     kind: HKind::CMatcher | HKind::CConstraint { .. },
                     ..
                 } | Op::StopNew { via_c: true, .. }
+                    | Op::HostileC { .. }
             )
         })
     };
